@@ -43,6 +43,7 @@ func loadEngineTypes(repoDir string) (map[string]*types.Package, error) {
 }
 
 func checkC02(c *Ctx, r *Report) {
+	defer func() { ruleRegexInventory(c, r, "C02.f", "core/annotations", "common", "core/validators") }()
 	defer checkProcessWideState(c, r, "C02.g")
 	w := c.W
 	r.NotDecided = append(r.NotDecided, "the routers' own matching semantics at run time (trailing slashes, precedence, path cleaning): 'a request reaches that method and no other'", "user template overrides")
